@@ -22,6 +22,7 @@ import (
 	"fmt"
 	"net"
 	"os"
+	"path/filepath"
 	"reflect"
 	"sort"
 	"strings"
@@ -502,6 +503,23 @@ func buildRows() {
 	})
 }
 
+// sizeof of the C records as clang computes them, written by the translator next to the harness binary.
+var cSizes map[string]map[string]int
+
+func loadCSizes() {
+	exe, err := os.Executable()
+	if err != nil {
+		panic(err)
+	}
+	b, err := os.ReadFile(filepath.Join(filepath.Dir(exe), "c13-csizes.json"))
+	if err != nil {
+		panic(err)
+	}
+	if err := json.Unmarshal(b, &cSizes); err != nil {
+		panic(err)
+	}
+}
+
 func main() {
 	if len(os.Args) > 1 && os.Args[1] == "-dump" {
 		buildRows()
@@ -511,6 +529,7 @@ func main() {
 	}
 	h := rt.New()
 	defer h.Close()
+	loadCSizes()
 	buildRows()
 	h.Rule = "finite table: every (IP version, shared structure, field) fact measured on the real Go code (exported offset constants, reflect offsets of the mirror struct, " +
 		"differential probing of encoders, one-hot probing of accessors) is one op; the model answers from the C layout computed by the Lean layout algorithm on the translated headers. " +
@@ -525,9 +544,10 @@ func main() {
 			op, out = fmt.Sprintf("sizeatmost %s %s %d", r.Ver, r.Struct, r.Size), "ok"
 		case r.Path == "" && r.Mode == "mirror-size":
 			// the Go mirror of cali_tc_state (used by the BPF unit tests only) is neither the v4 nor the v6 size
-			op, out = fmt.Sprintf("size %s %s", r.Ver, r.Struct), "skip"
-			if r.Size != 464 {
-				h.OracleFail("state-mirror-size", fmt.Sprintf("unsafe.Sizeof(state.State{}) = %d is not the size of struct cali_tc_state it mirrors", r.Size), r)
+			if c, ok := cSizes[r.Ver][r.Struct]; !ok {
+				panic("no C size for " + r.Struct + " (translator output .build/c13-csizes.json missing)")
+			} else if r.Size != c {
+				h.OracleFail("state-mirror-size", fmt.Sprintf("unsafe.Sizeof(state.State{}) = %d is not sizeof(struct cali_tc_state) = %d (IPv4 build) which it mirrors", r.Size, c), r)
 			}
 			continue
 		case r.Mode == "exact":
